@@ -11,6 +11,7 @@ def grid_prop(cases_q, cases_t, size=200, **kw):
 FAMS = {"fam:global": 0.08, "fam:sequence": 0.08, "fam:localp": 0.08, "fam:wavelet": 0.08, "fam:fourier": 0.06}
 PROPS = {
     "C01": grid_prop(30000, 1200000, floors=dict(FAMS, **{"hist:construction": 0.05, "hist:refined": 0.2, "lp:d>=3": 0.01, "wave:o3": 0.02})),
+    "C04": grid_prop(12000, 500000, floors=dict(FAMS, **{"state:pending": 0.05, "state:merged": 0.02, "state:constructing": 0.03, "state:coeff-overwritten": 0.05, "batch>=32": 0.3, "x:support-boundary": 0.1})),
     "C06": grid_prop(40000, 1500000,
                      floors={"fam:global": 0.08, "fam:sequence": 0.08, "fam:localp": 0.08, "fam:wavelet": 0.08, "fam:fourier": 0.08,
                              "fmt:ascii": 0.35, "sec:pending": 0.04, "sec:construction": 0.04, "sec:transform": 0.04, "sec:limits": 0.04}),
@@ -23,6 +24,11 @@ NOT_APPLICABLE = {}
 
 _TB = "Trusted base: the harness (decoder, reference models, oracles) and the sanitizer runtimes; generation is random, so absence of violations is evidence for the explored distribution only (reported in the evidence file)."
 META = {
+    "C04": dict(technique="property-based testing (rapidcheck, structure-aware byte decoder): differential oracles between the documented routes to the same quantity, poisoned output buffers, ASan/UBSan",
+                text="For generated grids and histories (pending/merged refinement, partial construction, coefficient overwrite) and generated batches of points (nodes, support boundaries, block-size boundaries) eight documented identities are checked: "
+                     "evaluate vs weights x values, vs coefficients x hierarchical functions, vs evaluateBatch/evaluateFast; sparse vs dense hierarchical matrix; zero outside the reported support; integrate vs quadrature and basis integrals; "
+                     "differentiate vs differentiation weights through all overloads; set/get coefficients round trip. Exploration.",
+                note=_TB),
     "C01": dict(technique="property-based testing (rapidcheck, structure-aware byte decoder): stateful histories against a coordinate->value reference dictionary, nodal round-trip oracle, ASan/UBSan",
                 text="Random grids (nested rules of all five families) are driven through generated load/refine/update/merge/construction histories; after every step that changes loaded data evaluate, evaluateBatch and evaluateFast "
                      "must return, at every loaded point, the value the harness supplied for that coordinate, within a data-derived rounding tolerance. Local polynomial grids are asserted when a coordinate-based hierarchy model confirms parent-completeness. Exploration.",
